@@ -1218,6 +1218,7 @@ func churn(c *vf.Ctx, rng *rand.Rand, n, ops int) (events []any) {
 					x, y = b, a
 				}
 				var fired atomic.Bool
+				plain := rng.Intn(2) == 0
 				hook := func() {
 					if fired.Load() {
 						return
@@ -1227,7 +1228,11 @@ func churn(c *vf.Ctx, rng *rand.Rand, n, ops int) (events []any) {
 						defer close(done)
 						if l := x.Peer.GetLink(y.ID.IP); l != nil && fired.CompareAndSwap(false, true) {
 							x.OnRoutingTable.Store(nil)
-							x.Peer.CloseLink(y.ID.IP)
+							if plain {
+								l.Close(nil) // the way the keep-alive worker closes a link it took from GetLinks()
+							} else {
+								x.Peer.CloseLink(y.ID.IP)
+							}
 						}
 					}()
 					select {
